@@ -46,6 +46,15 @@
 #     these histories start with the filtered load on an engine that never loaded (the debug controller
 #     opened before the first page view): since repair dd313c0 of /repo such a load no longer marks the
 #     engine as loaded (F-C17-a, corpus/C17/F-C17-a.json; C17_filtered_first_unrepaired_refuted).
+#   * REQUESTS THAT GO AWAY ("gone", ~16% of the cases, drawn independently of everything above): the
+#     context of the judged call is cancelled (client disconnected) or its deadline passes - already
+#     before the call, or while its k-th partial is being rendered (every partial template of such a
+#     case calls the harness function c17tick() first, which ends the context at the chosen partial), or
+#     a fixed time after the call began (while it waits for a render slot) - on engines without and with
+#     rate limit (1..3), while 0..limit OTHER renders are inside Engine.Render and hold render slots
+#     (template c17holder, blocked in c17hold() until the judged call is back): no slot held, some, all.
+#     Such a call may be refused (error, nil map) at whatever point the engine notices the context; if it
+#     answers without error it must answer completely (every requested key, contents as alone).
 import json
 import posixpath
 import unicodedata
@@ -523,7 +532,18 @@ class C17(Prop):
             "earlier calls with the same or with other data) x partial templates (plain, readers of "
             "list/object/number fields, mutators of the data they are given: push/pop/shift/unshift/sort/splice/"
             "member and top-level assignment) x typed Go data (map[string]interface{}, []interface{}, []string, "
-            "map[string]string, int, string) x configuration (debug mode, rate limit 0/1/2). ~30% of the cases are "
+            "map[string]string, int, string) x configuration (debug mode, rate limit 0/1/2). ~16% of ALL cases (drawn "
+            "independently of the streams below) are REQUESTS THAT GO AWAY: the context of the judged call is "
+            "cancelled or its deadline passes - before the call (2/7), or while its k-th partial is rendered (k = "
+            "0..3; every partial template of such a case first calls the harness function c17tick(), which ends the "
+            "context at the chosen partial: the following partials of the request meet a context that is over), or "
+            "30 ms after the call began (it then still waits for a render slot) - on engines with rate limit "
+            "0/1/1/2/2/3 while 0, limit-1 or limit OTHER renders (template c17holder, blocked inside its function "
+            "c17hold() until the judged call is back) are inside Engine.Render on the same engine and hold render "
+            "slots; 70% of these requests name 2-5 existing partials. For such a case the oracle accepts exactly two "
+            "answers: error with nil map (refused), or the complete answer of a live request (every requested key, "
+            "content as rendered alone) - a nil error with fewer keys is a violation; a call that is not back 30 s "
+            "after its context ended is class 'hang' (violation). ~30% of the cases are "
             "the 'which partials exist' stream: the request names partials and/or the template T with path syntax "
             "that only RESOLVES to a template of the tree when cleaned like a file path (trailing slash, './' prefix, "
             "'/.' suffix, 'x/../b', doubled and leading slashes, '../T' = the page itself, '../T.partial/b', "
@@ -568,11 +588,18 @@ class C17(Prop):
                "process isolation is the operating system's (os/exec of the harness binary, runner C17one); a child "
                "the Go runtime kills is reported as class 'crash' (= no content)",
                "the DebugController is driven through its exported Get method with a web.Request built by "
-               "web.CreateRequest (no router); its panic 'tpl not found' is recovered and ignored"]
+               "web.CreateRequest (no router); its panic 'tpl not found' is recovered and ignored",
+               "requests that go away: the harness ends the context itself (context.WithCancel / WithDeadline; from "
+               "inside the template function c17tick for 'during the k-th partial') and keeps other renders inside "
+               "Engine.Render by a template function that blocks (c17hold); the number of holders that really were "
+               "inside is reported (held) and enters the model history as renders of c17holder. Where in Render the "
+               "context is looked at is NOT assumed: C17_gone_all_or_nothing holds for every state-dependent refusal, "
+               "the judge accepts {complete answer, error with nil map} for these cases and nothing else"]
     assumptions = ["data is given as ordinary Go values (maps, slices, strings, numbers, pointers to structs with "
                    "methods, funcs), not as already converted pugjs.Object trees",
                    "the template files do not change between the calls of one case and every file compiles; one "
-                   "goroutine per engine; a generated partial may fail when executed (JSON.stringify of a value that "
+                   "goroutine per engine (except the holder renders of the 'gone' cases, which do nothing but block inside "
+                   "a template function while the judged call runs); a generated partial may fail when executed (JSON.stringify of a value that "
                    "cannot be encoded, a function applied to nil) - then it fails alone as well and the oracle demands "
                    "the error",
                    "every generated history is in the domain, a filtered load as the first call of a production "
@@ -598,7 +625,11 @@ class C17(Prop):
                       "execution of a template is a parameter (exec) of the C17 theorems",
                       "partials that include/extend other templates or call mixins of other files; template functions "
                       "that need the router / injector (asset, url, tryUrl, data, get); concurrent RenderPartials calls "
-                      "or loads on one engine (C08/C09/C10 cover concurrency of Render and LoadTemplates)"]
+                      "or loads on one engine (C08/C09/C10 cover concurrency of Render and LoadTemplates); for requests whose "
+                      "context ends, WHICH of the two accepted answers comes (Go's select picks at random between a free "
+                      "slot and a finished context) is not predicted, and a context that ends while a partial is "
+                      "executing is only noticed at the next partial (templates do not watch the context) - modelled as "
+                      "'refused or own content' per render (hypothesis of C17_gone_all_or_nothing), observed, not derived"]
 
     def generate(self, rng, n, tier):
         cases = []
@@ -641,7 +672,10 @@ class C17(Prop):
                     files[hx(other + ".partial/" + p)] = hx(tpl_ast("OTHER[" + p + "]", "x"))
             tree = sorted(unhx(k).decode() for k in files)
             mode = rng.random()
-            if mode < 0.12 and not paths:
+            is_gone = rng.random() < 0.16
+            if is_gone and existing and rng.random() < 0.7:
+                req = [rng.choice(existing) for _ in range(rng.randint(2, 5))]
+            elif mode < 0.12 and not paths:
                 req = []
             elif mode < 0.75 and existing:
                 req = [rng.choice(existing) for _ in range(rng.randint(1, 6))]
@@ -680,6 +714,21 @@ class C17(Prop):
                 if where in ("template", "both"):
                     kind, t = decorate_template(rng, t0, tree)
                     syntax.append("template:" + kind)
+            gone = None
+            if is_gone:
+                limit = rng.choice([0, 1, 1, 2, 2, 3])
+                holders = rng.choice([0, 2]) if limit == 0 else rng.choice([0, max(limit - 1, 0), limit, limit])
+                gone = {"how": rng.choice(["cancel", "deadline"]), "at": rng.choice([-1, -1, 0, 0, 1, 2, 3]),
+                        "holders": holders, "after_ms": 30}
+                tick = json.dumps(n_code("c17tick()", True))
+                for k in list(files):
+                    if unhx(k).decode().startswith(t0 + ".partial/"):
+                        ast = unhx(files[k]).decode()
+                        assert ast.startswith('{"type": "Block", "nodes": [')
+                        files[k] = hx('{"type": "Block", "nodes": [' + tick + ", " + ast[len('{"type": "Block", "nodes": ['):])
+                if holders:
+                    files[hx("c17holder")] = hx(json.dumps({"type": "Block", "nodes": [n_text("held"), n_code("c17hold()", True)]}))
+                tree = sorted(unhx(k).decode() for k in files)
             hist, prep = gen_prep(rng, t0, existing, req, tree if paths else None, t, tree, traffic=funcs)
             prep = other_data(rng, prep, funcs)
             # (statistics) a function called with an explicit option on a value it may fail on, earlier in
@@ -700,7 +749,8 @@ class C17(Prop):
                        if req[i] in info and req[j] in info)
             cases.append({"files": files, "template": hx(t), "partials": [hx(p) for p in req],
                           "data": gen_data(rng, funcs),
-                          "prep": prep, "debug": rng.random() < 0.1, "limit": rng.choice([0, 0, 0, 1, 2]),
+                          "prep": prep, "debug": rng.random() < 0.1,
+                          "limit": rng.choice([0, 0, 0, 1, 2]) if gone is None else limit, "gone": gone,
                           "meta": {"history": hist, "stateful": stateful, "mutator_before_reader": sens,
                                    "path_syntax": syntax, "funcs": funcs,
                                    "func_partials_requested": sum(1 for p in req if p in ftags),
@@ -736,13 +786,18 @@ class C17(Prop):
             else:
                 hist.append(b"(CPartials " + cq_bytes(unhx(op["t"]) if op.get("t") is not None else t) + b" " +
                             cq_list([cq_bytes(unhx(x)) for x in op["names"]]) + b")")
+        g = case.get("gone")
+        if g:
+            # the other renders are calls the engine under test received before the judged one
+            hist += [b"(CRender " + cq_bytes(b"c17holder") + b")"] * min(g["holders"], obs.get("held", 0))
         return (b"{| files := " + cq_list([cq_bytes(k) for k in tree]) + b"; table := " + cq_list(table) + b"; tname := " + cq_bytes(t) +
                 b"; req := " + cq_list([cq_bytes(unhx(p)) for p in case["partials"]]) +
                 b"; go := " + go + b"; go_nil_on_err := " + cq_bool(obs["nil_map"]) +
-                b"; dbg := " + cq_bool(bool(case.get("debug"))) + b"; hist := " + cq_list(hist) + b" |}")
+                b"; dbg := " + cq_bool(bool(case.get("debug"))) + b"; hist := " + cq_list(hist) +
+                b"; gone := " + cq_bool(bool(g)) + b" |}")
 
     def nontrivial(self, case, obs):
-        return len(case["partials"]) >= 2 or obs["class"] != "ok" or not case.get("prep")
+        return len(case["partials"]) >= 2 or obs["class"] != "ok" or not case.get("prep") or bool(case.get("gone"))
 
     def sample(self, case, obs):
         return {"template": unhx(case["template"]).decode(), "files": sorted(unhx(k).decode() for k in case["files"]),
@@ -752,6 +807,7 @@ class C17(Prop):
                 "history_outcomes": obs.get("prep"),
                 "alone": {unhx(a["name"]).decode(errors="replace"): a["res"]["class"] for a in obs["alone"]},
                 "path_syntax": case.get("meta", {}).get("path_syntax", []),
+                "gone": case.get("gone"), "limit": case.get("limit", 0),
                 "go_class": obs["class"],
                 "go_keys": [unhx(e["key"]).decode() for e in (obs["entries"] or [])]}
 
@@ -768,13 +824,21 @@ class C17(Prop):
                 yield w(prep=prep[:i] + [{k: v for k, v in prep[i].items() if k != "data"}] + prep[i + 1:])
         if case.get("debug"):
             yield w(debug=False)
-        if case.get("limit"):
+        if case.get("limit") and not (case.get("gone") or {}).get("holders"):
             yield w(limit=0)
+        g = case.get("gone")
+        if g:
+            if g["holders"] and g["holders"] < case.get("limit", 0):
+                yield w(gone=dict(g, holders=0))
+            if g["at"] > 0:
+                yield w(gone=dict(g, at=0))
+            if g["how"] != "cancel":
+                yield w(gone=dict(g, how="cancel"))
         ps = case["partials"]
         for i in range(len(ps)):
             yield w(partials=ps[:i] + ps[i + 1:])
         for k in list(case["files"]):
-            if k != case["template"]:
+            if k != case["template"] and k != hx("c17holder"):
                 yield w(files={a: b for a, b in case["files"].items() if a != k})
         # fewer data fields / shorter lists (a template that needs the field then fails on the reference too,
         # which changes the verdict, so such a step is simply not kept)
@@ -819,7 +883,11 @@ class C17(Prop):
              "option_on_awkward_value_before_getter_encoder": 0, "requested_partial_fails_alone": 0,
              "history_with_filtered_load": 0, "history_with_debug_controller": 0, "filter_kinds": {},
              "reload_covering_requested_partials_then_all_exist": 0,
-             "filtered_load_first_on_production_engine": 0, "filtered_load_first_then_all_requested_exist": 0, "processes": 0}
+             "filtered_load_first_on_production_engine": 0, "filtered_load_first_then_all_requested_exist": 0, "processes": 0,
+             "gone_cases": 0, "gone": {"cancel": 0, "deadline": 0, "over_before_call": 0, "ends_during_a_partial": 0,
+                                       "rate_limited": 0, "no_slot_free": 0, "some_slots_held": 0, "no_slot_held": 0,
+                                       "all_requested_exist": 0, "refused": 0, "answered_completely": 0,
+                                       "refused_although_all_exist_and_render": 0}}
         for c, o in zip(cases, obss):
             ps = c["partials"]
             d["empty_request"] += not ps
@@ -868,6 +936,23 @@ class C17(Prop):
             d["filtered_load_first_on_production_engine"] += ff
             d["filtered_load_first_then_all_requested_exist"] += ff and bool(ps) and not unk
             d["processes"] += o.get("procs", 0)
+            g = c.get("gone")
+            if g:
+                gd = d["gone"]
+                d["gone_cases"] += 1
+                gd[g["how"]] += 1
+                gd["over_before_call"] += g["at"] < 0
+                gd["ends_during_a_partial"] += g["at"] >= 0
+                lim = c.get("limit", 0)
+                gd["rate_limited"] += lim > 0
+                gd["no_slot_free"] += lim > 0 and o.get("held", 0) >= lim
+                gd["some_slots_held"] += 0 < o.get("held", 0) < lim
+                gd["no_slot_held"] += not o.get("held", 0)
+                allok = bool(ps) and not unk and all(a["res"]["class"] == "ok" for a in o["alone"])
+                gd["all_requested_exist"] += bool(ps) and not unk
+                gd["refused"] += o["class"] != "ok"
+                gd["answered_completely"] += o["class"] == "ok"
+                gd["refused_although_all_exist_and_render"] += allok and o["class"] != "ok"
             h = m.get("history", "corpus")
             d["history"][h] = d["history"].get(h, 0) + 1
         return d
